@@ -255,6 +255,9 @@ def tamper_case(args):
                         data = fh.read()
                     with open(p, "wb") as fh:
                         fh.write(edit_bytes(data, edit, rnd))
+                    if k % 2 == 0:
+                        # the edit leaves the time stamp older than the chain file's (bit rot, cp -p / rsync -t restores)
+                        w.older = set(getattr(w, "older", set())) | {p}
             if hrec["chain"] == "missing":
                 os.remove(os.path.join(folder, "ascmhl_chain.xml"))
         lines = []
